@@ -89,7 +89,7 @@ def read_bytes(
         data = file_.read().strip() if file_ else sys.stdin.read().strip()
         if len(data) % 8:
             data = "0" * (8 - len(data) % 8) + data
-        data = int(data, 2).to_bytes(len(data) // 8, "big")
+        data = int(data, 2).to_bytes(len(data) // 8, "big") if data else b""
     else:
         raise ValueError(f"unrecognized input format: {input_format}")
     return data
@@ -116,7 +116,7 @@ def write_bytes(
         format_spec = (
             f"0{len(data) * 2}x" if output_format == "hex" else f"0{len(data) * 8}b"
         )
-        formatted_data = format(int.from_bytes(data, "big"), format_spec)
+        formatted_data = format(int.from_bytes(data, "big"), format_spec) if data else ""
         formatted_data += os.linesep
         if file_ is not None:
             file_.write(formatted_data)
